@@ -1,13 +1,15 @@
 #!/bin/bash
 # usage: seed_all.sh [<scratch dir>] — regression of every kept seeded change against the current checks, in a scratch
-# worktree of /repo (so that /repo itself stays untouched and other checks can run meanwhile). Prints one line per seed.
+# (optional second argument: regex on the seed id) worktree of /repo (so that /repo itself stays untouched and other checks can run meanwhile). Prints one line per seed.
 W=${1:-/tmp/repo_seedall}
+FILTER=${2:-.}
 export GOFLAGS=-mod=mod GOPROXY=off GOSUMDB=off GOTOOLCHAIN=local
 git -C /repo worktree remove --force $W 2>/dev/null
 git -C /repo worktree add --detach $W HEAD -q || exit 9
 cd /verif
 for d in /verif/seeded/*/; do
   id=$(basename $d)
+  echo "$id" | grep -Eq "$FILTER" || continue
   prop=$(python3 -c "import json;print(json.load(open('$d/meta.json'))['property'])")
   alt=$(python3 -c "import json;print(json.load(open('$d/meta.json')).get('check_property',''))")
   [ -n "$alt" ] && prop=$alt
